@@ -20,7 +20,7 @@ PROP = "C12"
 NEED_JSONSCHEMA = True
 SHARDS = {"quick": 8, "thorough": 16}
 TIME_CAP = {"quick": 75, "thorough": 900}
-REQUIRED = ["recfield_checks", "lsp_deserialization_checks", "lsp_serialization_checks", "graphs", "d_agree_accept", "d_agree_reject", "d_conv_rejects", "d_value_error_caught", "d_value_error_propagates",
+REQUIRED = ["recfield_checks", "generic_inherit_agree", "generic_inherit_schema_equal", "lsp_deserialization_checks", "lsp_serialization_checks", "graphs", "d_agree_accept", "d_agree_reject", "d_conv_rejects", "d_value_error_caught", "d_value_error_propagates",
             "multi_later_alt_wins", "multi_first_wins_overlap", "multi_all_rejected", "s_agree", "schema_des_equal", "schema_ser_equal",
             "schema_own_annotations_merged", "unsupported_expected", "locality_object_field", "dyn_through_container", "dyn_through_ml",
             "field_conv_applied", "sub_conv_applied", "placement:reg", "placement:def", "placement:dyn", "placement:dyn_noreg",
@@ -865,7 +865,7 @@ def family_inherit(env, g):
         if not vals:
             env.count("abstain:no valid value")
             return
-        style = rng.choice(["func", "conv", "conv_inh_true", "noinherit", "lazy", "lazy_noinherit"])
+        style = rng.choice(["func", "conv", "conv_inh_true", "noinherit", "lazy", "lazy_func", "lazy_noinherit"])
         wit0 = {"program": prog.source, "family": "inherit", "style": style, "U": u.ann()}
         # method / property serializer: inherited by KM2, overridden in KM3
         for cname in ("KM", "KM2", "KM3"):
@@ -891,6 +891,8 @@ def family_inherit(env, g):
             serializer(Conversion(mod.g_plain, source=mod.KI, target=mod.U, inherited=True))
         elif style == "lazy":
             serializer(lazy=lambda: Conversion(mod.g_plain, source=mod.KI, target=mod.U), source=mod.KI)
+        elif style == "lazy_func":
+            serializer(lazy=lambda: mod.g_plain, source=mod.KI)  # the lazy callable hands out the bare converter
         elif style == "lazy_noinherit":
             serializer(lazy=lambda: Conversion(mod.g_plain, source=mod.KI, target=mod.U, inherited=False), source=mod.KI)
         else:
@@ -953,6 +955,114 @@ def family_inherit(env, g):
                 env.violation({"family": "inherit", "kind": "schema-exception", "which": "serialization", "exc": a.exc}, {**wit0, "observed": a.brief()})
     finally:
         mod.EXTRA_CLS = [mod.KI, mod.KI2, mod.KI3, mod.KM, mod.KM2, mod.KM3]
+        cleanup(mod)
+        prog.unload()
+
+
+GENERIC_INHERIT_SRC = """
+TVB = TypeVar("TVB")
+class GB(OpBase, Generic[TVB]):
+    pass
+class GBSub(GB[TVB]):  # still generic
+    pass
+class GBFixed(GB[{E}]):  # the subclass fixes the argument and is no longer generic
+    pass
+class GBFixed2(GBFixed):
+    pass
+class GBSubFixed(GBSub[{E}]):
+    pass
+def gb_out(o: GB[TVB]) -> List[TVB]:
+    return [unmk(o, ("t",))]
+CLS.update(GB=GB, GBSub=GBSub, GBFixed=GBFixed, GBFixed2=GBFixed2, GBSubFixed=GBSubFixed)
+E = {E}
+"""
+
+
+def family_generic_inherit(env, g):
+    """a generic serializer GB[T] -> List[T] is inherited by generic subclasses (GBSub[E]) and by subclasses that fix the
+    argument (class GBFixed(GB[E])): serialize / schema are those of List[E], with the conversions and checks of E"""
+    (apischema, cache, deserialization_method, serialization_method, converters, deserialization_schema, serialization_schema) = api()
+    from apischema import serializer
+    from apischema.conversions import Conversion
+    from typing import Dict, List, Optional
+
+    rng = env.rng
+    gg = GraphGen(rng, g)
+    u = gg.leaf()
+    decls = {}
+    u.collect(decls)
+    src = PRELUDE12 + "\nfrom typing import Generic, TypeVar\n" + "\n".join(v for v in decls.values() if v) + GENERIC_INHERIT_SRC.replace("{E}", u.ann())
+    try:
+        prog = load_source(src)
+    except Exception as e:
+        env.count("program_load_failed:" + type(e).__name__)
+        return
+    mod = prog.module
+    mod.EXTRA_CLS = []
+    try:
+        m_u = harness.call(deserialization_method, mod.E)
+        if m_u.kind != "ok":
+            env.count("abstain:reference type fails to compile")
+            return
+        cx = ctx_for(u)
+        vals = []
+        for d in gen_data.valid_data(u, cx, rng, 5):
+            o, o2 = harness.call(m_u.value, copy.deepcopy(d)), harness.call(m_u.value, copy.deepcopy(d))
+            if o.kind == "ok":
+                vals.append((d, o.value, o2.value))
+        if not vals:
+            env.count("abstain:no valid value")
+            return
+        style = rng.choice(["func", "conv", "lazy"])
+        if style == "func":
+            serializer(mod.gb_out)
+        elif style == "conv":
+            serializer(Conversion(mod.gb_out))
+        else:
+            serializer(lazy=lambda: mod.gb_out, source=mod.GB)
+        cache.reset()
+        wit0 = {"program": prog.source, "family": "generic-inherit", "style": style, "E": u.ann()}
+        types = {"GB[E]": (mod.GB[mod.E], mod.GB), "GBSub[E]": (mod.GBSub[mod.E], mod.GBSub), "GBFixed": (mod.GBFixed, mod.GBFixed), "GBFixed2": (mod.GBFixed2, mod.GBFixed2),
+                 "GBSubFixed": (mod.GBSubFixed, mod.GBSubFixed)}
+        shapes = [("bare", lambda c: c, lambda x: x), ("list", lambda c: List[c], lambda x: [x]), ("opt", lambda c: Optional[c], lambda x: x), ("dict", lambda c: Dict[str, c], lambda x: {"k": x})]
+        for tname, (tp, cls) in types.items():
+            for sname, mk_t, mk_v in rng.sample(shapes, 2):
+                for check_type in (False, True):
+                    kw = {"check_type": True} if check_type else {}
+                    a_m = harness.call(serialization_method, mk_t(tp), **kw)
+                    cache.reset()
+                    b_m = harness.call(serialization_method, mk_t(List[mod.E]), **kw)
+                    env.case("generic-inherit", style, tname, sname, check_type, u.sig())
+                    feat = {"family": "generic-inherit", "style": style, "subclass": tname, "shape": sname, "check_type": check_type}
+                    if b_m.kind != "ok":
+                        env.count("abstain:reference type fails to compile")
+                        continue
+                    if a_m.kind != "ok":
+                        env.violation({**feat, "kind": "serializer-not-inherited", "exc": a_m.exc}, {**wit0, "observed": a_m.brief()})
+                        continue
+                    for d, v, v2 in vals:
+                        cmp_ser(env, harness.call(a_m.value, mk_v(cls(v, "t"))), harness.call(b_m.value, mk_v([v2])), feat, {**wit0, "datum": d}, "generic_inherit_agree")
+                    if check_type:
+                        # an ill-typed payload is refused like an ill-typed element of List[E]
+                        bad = object()
+                        a, b = harness.call(a_m.value, mk_v(cls(bad, "t"))), harness.call(b_m.value, mk_v([bad]))
+                        if b.kind == "exc" and b.exc == "TypeCheckError" and a.kind == "ok":
+                            env.violation({**feat, "kind": "check-type-lost"}, {**wit0, "observed": a.brief(), "reference": b.brief()})
+                        else:
+                            env.count("generic_inherit_check_type")
+            cache.reset()
+            a, b = harness.call(serialization_schema, tp), harness.call(serialization_schema, List[mod.E])
+            if a.kind == "ok" and b.kind == "ok":
+                env.case("generic-inherit-schema", tname, u.sig())
+                if schema_bisim(a.value, b.value):
+                    env.count("generic_inherit_schema_equal")
+                else:
+                    env.violation({"family": "generic-inherit", "kind": "schema-differs", "which": "serialization", "subclass": tname},
+                                  {**wit0, "converted_schema": a.value, "reference_schema": b.value})
+            elif b.kind == "ok":
+                env.violation({"family": "generic-inherit", "kind": "schema-exception", "which": "serialization", "exc": a.exc, "subclass": tname}, {**wit0, "observed": a.brief()})
+    finally:
+        mod.EXTRA_CLS = [mod.GB, mod.GBSub, mod.GBFixed, mod.GBFixed2, mod.GBSubFixed]
         cleanup(mod)
         prog.unload()
 
@@ -1488,7 +1598,8 @@ def run_part(env, part, j, ndata=22):
         one_graph(env, j, ndata)
     else:
         g = gen_types.Gen(env.rng, max_depth=2, recursion=False)
-        {"inherit": family_inherit, "identity": family_identity, "recursive": family_recursive, "lsp": family_lsp, "recfield": family_recfield}[part](env, g)
+        {"inherit": family_inherit, "identity": family_identity, "recursive": family_recursive, "lsp": family_lsp, "recfield": family_recfield,
+         "generic-inherit": family_generic_inherit}[part](env, g)
 
 
 def tag_origin(env):
@@ -1513,6 +1624,8 @@ def run(env):
             run_part(env, "lsp", j)
         if j % 24 == 13:
             run_part(env, "recfield", j)
+        if j % 24 == 7:
+            run_part(env, "generic-inherit", j)
 
 
 def finish_coverage(cov, counters, tier):
